@@ -18,6 +18,9 @@ pub enum Ev {
     Ack(u64, usize),
     /// the node wins an election (a join, a forced election, a fail-over): nothing about who still owes an ack changes
     Win,
+    /// a member leaves the cluster (leave / replicate-leave, or its link died). Whatever the node does about what the
+    /// leaver still owed, an operation that another targeted node has not acknowledged stays pending
+    Leave(usize),
 }
 
 const NODES: [&str; 4] = ["n-a:1", "n-b:2", "n-c:3", "foreign:9"];
@@ -37,12 +40,30 @@ struct ModelOp {
 /// Returns Some(problem) on the first disagreement.
 fn replay(evs: &[Ev], classes: &mut BTreeSet<String>) -> Option<(serde_json::Value, serde_json::Value)> {
     let dbs = new_dbs();
+    for n in 0..3 {
+        dbs.add_cluster_member(nundb::bo::ClusterMember { name: NODES[n].to_string(), role: nundb::bo::ClusterRole::Secoundary, sender: None });
+    }
     let mut model: BTreeMap<u64, ModelOp> = BTreeMap::new();
     let mut trace = vec![];
     let mut unspecified = false;
+    // operations targeted at a node that left since: their counters may or may not still include the leaver
+    let mut loose: BTreeSet<u64> = BTreeSet::new();
+    let mut left: BTreeSet<usize> = BTreeSet::new();
     for (i, e) in evs.iter().enumerate() {
         let class;
         match e {
+            Ev::Leave(n) => {
+                left.insert(*n);
+                let touched: Vec<u64> = model.iter().filter(|(_, m)| m.targeted.contains(n)).map(|(o, _)| *o).collect();
+                class = if touched.is_empty() { "member-leaves-owing-nothing" } else if touched.iter().any(|o| model[o].acked.contains(n)) { "member-leaves-after-acknowledging" } else { "member-leaves-before-acknowledging" };
+                for o in touched {
+                    loose.insert(o);
+                }
+                if let Err(p) = std::panic::catch_unwind(std::panic::AssertUnwindSafe(|| dbs.remove_cluster_member(&NODES[*n].to_string()))) {
+                    return Some((json!({"check": "pending", "problem": "panic", "event": class}), json!({"events": format!("{:?}", evs), "at": i, "msg": panic_msg(&p)})));
+                }
+                trace.push(json!([format!("{:?}", e), "left"]));
+            }
             Ev::Win => {
                 class = "node-wins-an-election";
                 if let Err(p) = std::panic::catch_unwind(std::panic::AssertUnwindSafe(|| nundb::election_ops::election_win(&dbs))) {
@@ -100,7 +121,7 @@ fn replay(evs: &[Ev], classes: &mut BTreeSet<String>) -> Option<(serde_json::Val
                 match r {
                     Ok(counted) => {
                         trace.push(json!([format!("{:?}", e), counted]));
-                        if !unspecified && counted != expected_counts {
+                        if !unspecified && !loose.contains(op) && counted != expected_counts {
                             return Some((json!({"check": "pending", "problem": if counted {"ack-counted-although-it-must-change-nothing"} else {"valid-ack-not-counted"}, "event": class}), json!({"events": format!("{:?}", evs), "at": i, "trace": trace})));
                         }
                     }
@@ -109,6 +130,16 @@ fn replay(evs: &[Ev], classes: &mut BTreeSet<String>) -> Option<(serde_json::Val
             }
         }
         classes.insert(class.to_string());
+        // an operation that only nodes that left still owe: the statement does not say whether it stays pending
+        if model.iter().any(|(o, m)| loose.contains(o) && m.targeted.difference(&m.acked).all(|n| left.contains(n))) {
+            unspecified = true;
+        }
+        // a node that left and is targeted again: a new membership, outside this model
+        if let Ev::Reg(_, n) = e {
+            if left.contains(n) {
+                unspecified = true;
+            }
+        }
         if unspecified {
             // only the weak invariants from here on
             let n = dbs.pending_opps.read().unwrap().len();
@@ -129,6 +160,9 @@ fn replay(evs: &[Ev], classes: &mut BTreeSet<String>) -> Option<(serde_json::Val
         }
         for (op, m) in &model {
             let c = dbs.get_pending_opp_copy(*op).unwrap();
+            if loose.contains(op) {
+                continue;
+            }
             if c.count_replication() != m.targeted.len() || c.count_acknowledged() != m.acked.len() || c.is_full_acknowledged() {
                 return Some((
                     json!({"check": "pending", "problem": "counters-differ-from-model", "event": class}),
@@ -152,6 +186,7 @@ fn alphabet() -> Vec<Ev> {
     }
     a.push(Ev::Ack(7, 0)); // unknown operation
     a.push(Ev::Win);
+    a.push(Ev::Leave(0));
     a
 }
 
@@ -226,6 +261,8 @@ pub fn run(tier: &str) -> i32 {
                 let op = rng.range(1, 3) as u64;
                 if rng.chance(2, 5) {
                     Ev::Reg(op, rng.below(3))
+                } else if rng.chance(1, 8) {
+                    Ev::Leave(rng.below(3))
                 } else {
                     Ev::Ack(*rng.pick(&[op, op, op, 9]), rng.below(4))
                 }
@@ -448,7 +485,7 @@ pub fn run(tier: &str) -> i32 {
     ev.evaluations = evaluated.load(std::sync::atomic::Ordering::SeqCst) + n_random as u64 + race_rounds as u64 + cl.runs;
     ev.distinct_nontrivial = distinct_orders.load(std::sync::atomic::Ordering::SeqCst);
     ev.exhaustive = Some(true);
-    ev.rule = format!("all {} sequences of 1-{} events over register(op, node) / ack(op, node) for 2 operations x 2 targeted nodes + a never-targeted node + an unknown operation (exhaustive), {} random sequences of 5-16 events over 3 operations x 3 nodes + foreign/unknown acks, {} rounds of 4 threads racing to acknowledge 9 (op,node) pairs with duplicates, {} rounds of an acknowledgement racing the registration of the same operation for a second node (ack took effect first in {}, registration first in {}), {} writes through the real replication loop on its own thread with a secondary that acknowledges each message at once from another thread (nothing may be left pending), and {} simulated-cluster runs whose pending count must be 0 at quiescence; after every event the real pending set and counters are compared with a set-based model; distinct_nontrivial = exhaustively enumerated distinct event orders that contain an acknowledgement after a registration", total, depth, n_random, race_rounds, reg_rounds, reg_seen_both_orders.1, reg_seen_both_orders.0, fast_ack_done, cl.runs);
+    ev.rule = format!("all {} sequences of 1-{} events over register(op, node) / ack(op, node) for 2 operations x 2 targeted nodes + a never-targeted node + an unknown operation + the node winning an election + a targeted member leaving the cluster (exhaustive; after a leave only 'an operation another targeted node still owes stays pending' is demanded), {} random sequences of 5-16 events over 3 operations x 3 nodes + foreign/unknown acks, {} rounds of 4 threads racing to acknowledge 9 (op,node) pairs with duplicates, {} rounds of an acknowledgement racing the registration of the same operation for a second node (ack took effect first in {}, registration first in {}), {} writes through the real replication loop on its own thread with a secondary that acknowledges each message at once from another thread (nothing may be left pending), and {} simulated-cluster runs whose pending count must be 0 at quiescence; after every event the real pending set and counters are compared with a set-based model; distinct_nontrivial = exhaustively enumerated distinct event orders that contain an acknowledgement after a registration", total, depth, n_random, race_rounds, reg_rounds, reg_seen_both_orders.1, reg_seen_both_orders.0, fast_ack_done, cl.runs);
     ev.samples = samples.into_inner().unwrap();
     ev.set("event_classes_seen", json!(classes.lock().unwrap().iter().cloned().collect::<Vec<_>>()));
     ev.set("cluster_runs_with_pending_zero_at_quiescence", json!(cl.runs));
